@@ -61,6 +61,9 @@ def job(args):
         r.coverage["final_words_checked"] = cs.get("final_checked", 0)
     if prop == "C05":
         B = latency_bound(cfg)
+        # offer -> accept: every other master may be served once on the same bank before this one (round-robin): Bound scales with
+        # the number of masters (a configuration constant); accept -> strobe: B
+        Bw = B * max(1, nm - 1)
         worst = 0
         # per port: offer -> accept, accept -> strobe
         for p in range(nm):
@@ -74,10 +77,10 @@ def job(args):
                     inflight.append([0, accs[p][0]])
                 elif offered:
                     wait += 1
-                    if wait > B:
+                    if wait > Bw:
                         sig, why = classify_wait(cfg, cs, p, k, wait)
                         r.violations.append(dict(signature=sig, what="%s 1:%d, %d ports: port %d's command has been offered for %d cycles without being accepted (Bound(cfg) = %d)%s"
-                                                 % (cfg["memtype"], cfg["nphases"], nm, p, wait, B, why), replay=dict(tag, port=p, cycle=k)))
+                                                 % (cfg["memtype"], cfg["nphases"], nm, p, wait, Bw, why), replay=dict(tag, port=p, cycle=k)))
                         break
                 for f in inflight:
                     f[0] += 1
